@@ -54,7 +54,9 @@ def mimic_function[**Args, Result](
             except AttributeError:
                 pass
         try:
-            target.__dict__.update(function.__dict__)
+            # do not override attributes already defined by the target, wrapper objects keep their own state
+            for key, value in function.__dict__.items():
+                target.__dict__.setdefault(key, value)
 
         except AttributeError:
             pass
